@@ -200,6 +200,15 @@ def run_unit(u, repo=None, keep_trace=True):
                 pr.wait()
             fo.close()
         if done is None:
+            errs = []
+            for b, c, pr, fo in procs:
+                try:
+                    txt = open(fo.name, "rb").read().decode(errors="replace")
+                    errs += re.findall(r'"messageText": "([^"]*)",\s*"messageType": "ERROR"', txt)[-1:]
+                except Exception:
+                    pass
+            if errs and time.time() - t0 < tmo:
+                raise Undecided("every back end %s stopped without a result: %s" % (list(backends), " | ".join(errs)))
             raise Undecided("timeout after %ds on every back end %s: %s" % (tmo, list(backends), " ".join(base_cmd[:3])))
         used, cmd, o, e, rc = done
         solver_s = time.time() - t0
